@@ -1323,7 +1323,63 @@ pub fn gen(rng: &mut Rng, n: usize, thorough: bool, stats: &mut Stats) -> Vec<St
 			}
 		}
 	}
+	// long files, streamed: the sound is longer than two of the streaming sound's frame rings (16384 slots each), so
+	// the ring's 4-frame read window straddles the physical end of the ring buffer at least twice; every frame is
+	// compared with the static load of the same bytes (the bytes the Lean encoder produced)
+	for k in 0..(if thorough { 6 } else { 2 }) {
+		lines.push(format!("case {}", n + k));
+		gen_long_stream(rng, stats, &mut lines);
+	}
 	lines
+}
+
+/// a canonical WAV of more than 2 × 16384 frames, streamed from (near) its start to its end in runs of up to a
+/// few thousand decoder iterations, with an occasional seek
+fn gen_long_stream(rng: &mut Rng, stats: &mut Stats, lines: &mut Vec<String>) {
+	let (fmt, bytes_per) = rng.pick(&[("u8", 1usize), ("u8", 1), ("s16", 2)]);
+	let ch = rng.pick(&[1usize, 1, 2]);
+	let rate = loop {
+		let r = rng.pick(&[8000u32, 11025, 22050, 44100, 48000, 1, 256, 96000]);
+		if find_step(r).is_some() {
+			break r;
+		}
+	};
+	let frames = 2 * 16_384 + 300 + rng.below(2500) as usize;
+	let n = frames * ch;
+	let mut hex = String::with_capacity(n * bytes_per * 2);
+	for _ in 0..n {
+		let c = gen_code(rng, fmt, true);
+		hex.push_str(&format!("{:0width$x}", c, width = bytes_per * 2));
+	}
+	lines.push(format!("wav {} {} {} {} {}", fmt, ch, rate, n, hex));
+	stats.hit("wav.long");
+	let start = if rng.chance(1, 3) { rng.below(200) as usize } else { 0 };
+	lines.push(format!("st.new {} - -", start));
+	stats.hit("st.new");
+	let mut pos = start;
+	let mut streamed = 0usize;
+	let mut seeks = 0;
+	while pos < frames {
+		let k = match rng.below(6) {
+			0 => 1 + rng.below(40) as usize,
+			1 => 4096,
+			2 => 16_383,
+			_ => 500 + rng.below(6000) as usize,
+		};
+		// a seek back now and then, but only once enough has been streamed for the file to be played past two rings
+		if seeks < 2 && streamed > 6000 && rng.chance(1, 6) && frames - pos + streamed > 2 * 16_384 + 4000 {
+			let idx = pos.saturating_sub(rng.below(3000) as usize);
+			lines.push(format!("st.seek {} {}", idx, k));
+			stats.hit("st.seek");
+			seeks += 1;
+			pos = idx;
+		} else {
+			lines.push(format!("st.run {}", k));
+			stats.hit("st.run");
+		}
+		pos += k;
+		streamed += k;
+	}
 }
 
 #[cfg(test)]
